@@ -95,7 +95,7 @@ func TestVerifReplay(t *testing.T) {
 		t.Logf("VERIF-ASSUME-FAILED")
 	}
 	if panicked != nil {
-		t.Logf("VERIF-PANIC %%v", panicked)
+		t.Logf("VERIF-PANIC %%v at %%s", panicked, verifPanicStack)
 	}
 	if len(failed) > 0 {
 		t.Fatalf("VERIF-FAILED %%v", failed)
@@ -142,7 +142,7 @@ type nativeTrace struct {
 	Panic  string      `json:"panic"`
 }
 
-func nativeTraces(spec *Unit, p *Program, harnesses []string, params map[string]map[string]int, n int, seed int64) (map[string][]nativeTrace, string, error) {
+func nativeTraces(spec *Unit, p *Program, harnesses []string, params map[string]map[string]int, guided map[string][][]replayVal, n int, seed int64) (map[string][]nativeTrace, string, error) {
 	dir := workDir()
 	defer os.RemoveAll(dir)
 	pdir := filepath.Join(repoDir, spec.Package)
@@ -158,6 +158,19 @@ func nativeTraces(spec *Unit, p *Program, harnesses []string, params map[string]
 		}
 		sb.WriteString("}\n")
 		fmt.Fprintf(&sb, "\t\t_, _, panicked, af := verifRun(%s)\n\t\tout[%q] = append(out[%q], verifTraceOf(panicked, af))\n\t}\n", h, h, h)
+		// solver-guided inputs: completed paths of the symbolic run
+		for _, g := range guided[h] {
+			sb.WriteString("\t{\n\t\tverifResetRun(1)\n\t\tverifSt.random = false\n\t\tverifSt.doc.Nondet = []verifRec{")
+			for _, rv := range g {
+				fmt.Fprintf(&sb, "{%q, %q, %d}, ", rv.Name, rv.Kind, rv.V)
+			}
+			sb.WriteString("}\n\t\tverifSt.doc.Params = map[string]int{")
+			for k, v := range params[h] {
+				fmt.Fprintf(&sb, "%q: %d, ", k, v)
+			}
+			sb.WriteString("}\n")
+			fmt.Fprintf(&sb, "\t\t_, _, panicked, af := verifRun(%s)\n\t\tout[%q] = append(out[%q], verifTraceOf(panicked, af))\n\t}\n", h, h, h)
+		}
 	}
 	sb.WriteString("\tb, _ := json.Marshal(out)\n\tos.WriteFile(os.Getenv(\"VERIF_TRACE_OUT\"), b, 0o644)\n}\n")
 	extra := nativeRewrites(spec)
@@ -192,6 +205,7 @@ func validateAgainstNative(p *Program, u *Unit, results []*HarnessResult, tier s
 	}
 	var names []string
 	params := map[string]map[string]int{}
+	guided := map[string][][]replayVal{}
 	for _, r := range results {
 		if r.unit != u {
 			continue
@@ -202,11 +216,12 @@ func validateAgainstNative(p *Program, u *Unit, results []*HarnessResult, tier s
 		}
 		names = append(names, r.Func)
 		params[r.Func] = r.Params
+		guided[r.Func] = r.Stats.Guided
 	}
 	if len(names) == 0 {
 		return 0, nil
 	}
-	traces, out, err := nativeTraces(u, p, names, params, n, o.seed)
+	traces, out, err := nativeTraces(u, p, names, params, guided, n, o.seed)
 	if err != nil {
 		return 0, []string{"native trace run failed for " + u.Package + ": " + err.Error() + ": " + lastLines(out, 8)}
 	}
@@ -217,10 +232,10 @@ func validateAgainstNative(p *Program, u *Unit, results []*HarnessResult, tier s
 			continue
 		}
 		hs := findHarness(u, r.Func)
-		matched := 0
+		matched, full := 0, 0
 		for i, tr := range traces[r.Func] {
-			if hs.DiffTraces > 0 && i >= hs.DiffTraces {
-				break
+			if hs.DiffTraces > 0 && i >= hs.DiffTraces && i < n {
+				continue // random traces beyond the harness's budget; guided ones (index >= n) always run
 			}
 			obs, failed, end := runConcrete(p, u, hs, tier, tr.Nondet)
 			if tr.Panic != "" {
@@ -249,8 +264,10 @@ func validateAgainstNative(p *Program, u *Unit, results []*HarnessResult, tier s
 				continue
 			}
 			matched++
+			full++
 		}
 		r.Stats.Validated = matched
+		r.Stats.ValidatedFull = full
 		total += matched
 	}
 	return total, problems
